@@ -43,7 +43,7 @@ impl Prop for C08 {
         ]
         .boxed();
         let iv = || prop_oneof![1 => Just(None), 1 => (1.0..=120.0f64).prop_map(|x| Some(F(x)))];
-        let spec = (gen::pick(&gen::NAMED_METHODS), 1u8..15, -66.0..=66.0f64, iv(), iv()).prop_map(|(method, policy, plat, fi, ii)| {
+        let spec = (gen::pick(&gen::NAMED_METHODS), 1u8..15, -66.0..=66.0f64, iv(), iv(), 0u8..4).prop_map(|(method, policy, plat, fi, ii, rounding)| {
             let mut method = method;
             if gen::policy_consumes_intervals(policy) && method >= 7 {
                 // quantified over angle-based methods only for these policies
@@ -52,6 +52,8 @@ impl Prop for C08 {
             let mut s = ParamSpec::plain(method);
             s.policy = policy;
             s.policy_lat = F(plat);
+            // all four rounding modes (both runs of a case use the same one)
+            s.rounding = rounding;
             if gen::policy_consumes_intervals(policy) || policy == gen::P_MIN_ALWAYS {
                 s.fajr_interval = fi;
                 if s.intervals().1 == 0.0 {
@@ -60,7 +62,19 @@ impl Prop for C08 {
             }
             s
         });
-        (gen::site_lat(lat, 2.0), spec, gen::date()).prop_map(|(site, spec, date)| Case { site, spec, date }).boxed()
+        // in a tenth of the nearest-latitude cases the substitute latitude is within 1e-8..1e-3 deg of the site's own
+        // latitude (the borrowed times are then within microseconds..seconds of the conventional ones: a replaced time
+        // must still be flagged, an unflagged one must still equal the conventional time exactly)
+        (gen::site_lat(lat, 2.0), spec, gen::date(), 0u8..10, -3.0..=0.0f64, any::<bool>())
+            .prop_map(|(site, mut spec, date, k, e, up)| {
+                if k == 0 && matches!(spec.policy, gen::P_NL_ALL | gen::P_NL_FI_ALWAYS | gen::P_NL_FI_INV) {
+                    let d = 10f64.powf(e * 8.0 / 3.0) * 1e-0 * 1e-0; // 1e-8 .. 1
+                    let d = d.min(1e-3).max(1e-8);
+                    spec.policy_lat = F((site.lat.0 + if up { d } else { -d }).clamp(-66.0, 66.0));
+                }
+                Case { site, spec, date }
+            })
+            .boxed()
     }
     fn self_test(&self) -> Result<(), String> {
         ephem::self_test()
